@@ -28,9 +28,22 @@ import (
 )
 
 type baseImage struct {
-	name, kind string
-	img        []byte
-	be         bool // big-endian duplicates matter (iso9660)
+	name, kind  string
+	img         []byte
+	be          bool  // big-endian duplicates matter (iso9660)
+	start       int64 // the filesystem begins at this device offset (0 for the first nine bases)
+	sector      int64 // sector / block size handed to Read (0 = the kind's usual one)
+	size        int64 // filesystem size handed to Read (0 = len(img)-start)
+	extra       bool  // one of the regime bases of bases2.go
+	quickBudget int   // traced cases of the quick tier (0 = the default)
+}
+
+// spec is what a child needs to open the image: kind[:sector[:start[:size]]].
+func (b baseImage) spec() string {
+	if b.start == 0 && b.sector == 0 && b.size == 0 {
+		return b.kind
+	}
+	return fmt.Sprintf("%s:%d:%d:%d", b.kind, b.sector, b.start, b.size)
 }
 
 func put(fsys filesystem.FileSystem, name string, data []byte) error {
@@ -182,7 +195,7 @@ func staticFields(b baseImage) [][2]int64 {
 	var f [][2]int64
 	add := func(base int64, offs ...int64) {
 		for i := 0; i+1 < len(offs); i += 2 {
-			f = append(f, [2]int64{base + offs[i], offs[i+1]})
+			f = append(f, [2]int64{b.start + base + offs[i], offs[i+1]})
 		}
 	}
 	switch b.kind {
@@ -190,7 +203,11 @@ func staticFields(b baseImage) [][2]int64 {
 		add(0, 11, 2, 13, 1, 14, 2, 16, 1, 17, 2, 19, 2, 21, 1, 22, 2, 24, 2, 26, 2, 28, 4, 32, 4, 36, 1, 38, 1, 39, 4, 510, 2)
 	case "fat32":
 		add(0, 11, 2, 13, 1, 14, 2, 16, 1, 17, 2, 19, 2, 21, 1, 22, 2, 24, 2, 26, 2, 28, 4, 32, 4, 36, 4, 40, 2, 42, 2, 44, 4, 48, 2, 50, 2, 64, 1, 66, 1, 67, 4, 510, 2)
-		add(512, 0, 4, 484, 4, 488, 4, 492, 4, 508, 4) // FSInfo
+		fsis := int64(512)
+		if b.sector > 0 {
+			fsis = b.sector
+		}
+		add(fsis, 0, 4, 484, 4, 488, 4, 492, 4, 508, 4) // FSInfo
 	case "ext4":
 		sb := int64(1024)
 		for o := int64(0); o < 0x68; o += 4 {
@@ -265,6 +282,16 @@ func boundaryValues(w int64, old []byte, be bool) [][]byte {
 }
 
 // tracedPositions: every metadata byte the reader consumed while opening and listing the intact image.
+// contentSite: the library function that issued a device read fetches file content, not a structure.
+func contentSite(site string) bool {
+	return strings.HasSuffix(site, ".(*File).Read") || strings.HasSuffix(site, ".(*File).ReadAt") ||
+		strings.Contains(site, "squashfs.(*FileSystem).readBlock") || strings.Contains(site, "squashfs.(*FileSystem).readFragment")
+}
+
+// structuralInFileReads: device reads of the last tracedPositions call that happened only while files
+// were opened and read and did not fetch content (evidence key file-read-structural-reads/<base>).
+var structuralInFileReads int
+
 func tracedPositions(b baseImage, r *hx.Rng) []int64 {
 	type rd struct {
 		off int64
@@ -274,12 +301,28 @@ func tracedPositions(b baseImage, r *hx.Rng) []int64 {
 	dev := &overlay{base: b.img, trace: func(off int64, n int) { reads = append(reads, rd{off, n}) }}
 	func() {
 		defer func() { _ = recover() }()
-		fsys, err := openFS(b.kind, dev, int64(len(b.img)))
+		fsys, err := openFS(b.spec(), dev, int64(len(b.img)))
 		if err != nil {
 			return
 		}
 		st := &walkStats{began: time.Now()}
 		walk(fsys, ".", 0, st, 0, false) // listing only: file contents are not structural fields
+		// second pass, opening and reading every file: structures that are only consulted then (ext4
+		// extent-tree blocks below the inode) are structural too; the reads that fetch file CONTENT
+		// (innermost library frame is a File.Read or a squashfs data/fragment block fetch) are left out
+		listed := len(reads)
+		dev.trace = func(off int64, n int) {
+			site := callerSite()
+			if !contentSite(site) {
+				reads = append(reads, rd{off, n})
+				if os.Getenv("VERIF_C18_DEBUG") != "" {
+					fmt.Fprintf(os.Stderr, "structural read in pass 2: %s off=%d n=%d\n", site, off, n)
+				}
+			}
+		}
+		st = &walkStats{began: time.Now()}
+		walk(fsys, ".", 0, st, int64(len(b.img)), true)
+		structuralInFileReads = len(reads) - listed
 	}()
 	seen := map[int64]bool{}
 	var pos []int64
@@ -370,10 +413,22 @@ func genCases(c *hx.Ctx, b baseImage) []string {
 		}
 	}
 	c.StatN("positions/"+b.name, len(pos))
+	c.StatN("file-read-structural-reads/"+b.name, structuralInFileReads)
 	c.StatN("cases-enumerated/"+b.name, nStatic+len(traced))
 	// quick: all declared-field cases plus a seed-rotated slice of the traced ones; thorough: everything
-	if !c.Thorough() {
-		budget := 700
+	// the regime bases (bases2.go) are several times larger than the first nine: quick takes a thinner
+	// slice of their traced cases, thorough a seed-rotated 20 000 instead of all of them
+	budget := 700
+	if b.extra {
+		budget = 400
+	}
+	if b.quickBudget > 0 {
+		budget = b.quickBudget
+	}
+	if c.Thorough() && b.extra {
+		budget = 20000
+	}
+	if !c.Thorough() || b.extra {
 		if len(traced) > budget {
 			stride := len(traced)/budget + 1
 			off := int(c.Seed) % stride
@@ -421,7 +476,7 @@ func runChildren(c *hx.Ctx, b baseImage, cases []string) []result {
 			from := 0
 			n := hi - lo
 			for from < n {
-				cmd := exec.Command(self, "--child", b.kind, basefile, cf, strconv.Itoa(from), strconv.Itoa(deadline), strconv.Itoa(capMiB))
+				cmd := exec.Command(self, "--child", b.spec(), basefile, cf, strconv.Itoa(from), strconv.Itoa(deadline), strconv.Itoa(capMiB))
 				var stderr bytes.Buffer
 				cmd.Stderr = &stderr
 				cmd.Env = append(os.Environ(), "GOTRACEBACK=single", "GOMAXPROCS=2")
@@ -530,6 +585,7 @@ func Run(c *hx.Ctx) {
 		c.Fail("bases", "-", "cannot build base images with the library: "+err.Error(), "")
 		return
 	}
+	bases = append(bases, buildExtraBases(c)...)
 	for _, b := range bases {
 		if only := c.Args["base"]; only != "" && only != b.name {
 			continue
@@ -545,7 +601,7 @@ func Run(c *hx.Ctx) {
 			tmp := filepath.Join(c.Scratch, "one.txt")
 			_ = os.WriteFile(tmp, []byte(one+"\treplay\n"), 0o644)
 			cs, _ := readCases(tmp)
-			oc, det := runCase(b.kind, b.img, cs[0].patch)
+			oc, det := runCase(b.spec(), b.img, cs[0].patch)
 			c.Note("replay %s patch=%s -> %s %s", b.name, one, oc, det)
 			if oc == "data" || oc == "error" {
 				c.OK("replay/" + b.name)
@@ -554,15 +610,29 @@ func Run(c *hx.Ctx) {
 			}
 			continue
 		}
+		if c.Args["bench"] != "" { // builder's aid: cost of one walk of the intact image
+			t0 := time.Now()
+			for i := 0; i < 10; i++ {
+				runCase(b.spec(), b.img, nil)
+			}
+			c.Note("bench %s: %v per intact case, image %d bytes", b.name, time.Since(t0)/10, len(b.img))
+			continue
+		}
+		regimeStats(c, b)
 		cases := genCases(c, b)
+		if c.Args["gen"] != "" { // builder's aid: enumerate only
+			continue
+		}
 		// the intact image must read as data: otherwise the enumeration means nothing
-		oc, det := runCase(b.kind, b.img, nil)
+		oc, det := runCase(b.spec(), b.img, nil)
 		if oc != "data" {
 			c.Fail("intact/"+b.name, "-", "intact base image does not read cleanly: "+oc+" "+det, b.name)
 			continue
 		}
 		c.OK("intact/" + b.name)
+		t0 := time.Now()
 		res := runChildren(c, b, cases)
+		c.StatN("children-wall-ms/"+b.name, int(time.Since(t0).Milliseconds()))
 		// a deadline miss on a busy machine is not yet a hang: re-run each such case alone, generously
 		var tmo []int
 		for i, r := range res {
@@ -664,7 +734,7 @@ func confirmTimeouts(c *hx.Ctx, b baseImage, cases []string, res []result, idx [
 			defer func() { <-sem }()
 			cf := filepath.Join(dir, fmt.Sprintf("confirm-%d.txt", i))
 			_ = os.WriteFile(cf, []byte(cases[i]+"\n"), 0o644)
-			cmd := exec.Command(self, "--child", b.kind, basefile, cf, "0", "20", strconv.Itoa(capMiB))
+			cmd := exec.Command(self, "--child", b.spec(), basefile, cf, "0", "20", strconv.Itoa(capMiB))
 			cmd.Env = append(os.Environ(), "GOTRACEBACK=single", "GOMAXPROCS=2")
 			out, _ := cmd.Output()
 			for _, l := range strings.Split(string(out), "\n") {
